@@ -103,6 +103,15 @@ func (e *c12Env) run(c c12Case) (obs, bad string) {
 	full := shape{Text: "OCRA-1:HOTP-SHA1-6:C-QN08-PSHA1-S-T1M", Hash: c.Sub % 3, Digits: 6 + c.Sub%5, C: true, Q: true, P: true, S: true, T: true, QF: 1, PH: 1, TS: 60}
 	in := otp.OCRAInput{Counter: a.slice(c.Lens[0], c.Shape, 1), Challenge: a.slice(c.Lens[1], c.Shape, 2), Password: a.slice(c.Lens[2], c.Shape, 3), SessionInfo: a.slice(c.Lens[3], c.Shape, 4), Timestamp: a.slice(c.Lens[4], c.Shape, 5)}
 	inCopy := otp.OCRAInput{Counter: clone(in.Counter), Challenge: clone(in.Challenge), Password: clone(in.Password), SessionInfo: clone(in.SessionInfo), Timestamp: clone(in.Timestamp)}
+	var frame, frameSaved []byte
+	if c.Shape == 3 {
+		// all fields cut out of one frame buffer, without capacity limits
+		fin, fr := framed(oin{in.Counter, in.Challenge, in.Password, in.SessionInfo, in.Timestamp})
+		in = otp.OCRAInput{Counter: fin.Counter, Challenge: fin.Challenge, Password: fin.Password, SessionInfo: fin.Session, Timestamp: fin.Timestamp}
+		inCopy = otp.OCRAInput{Counter: clone(in.Counter), Challenge: clone(in.Challenge), Password: clone(in.Password), SessionInfo: clone(in.SessionInfo), Timestamp: clone(in.Timestamp)}
+		frame = fr[:cap(fr)]
+		frameSaved = append([]byte(nil), frame...)
+	}
 	cfg := full.lib()
 	switch c.Sub % 4 {
 	case 1:
@@ -272,6 +281,13 @@ func (e *c12Env) run(c c12Case) (obs, bad string) {
 		if ch := a.changed(); ch != "" {
 			return when + ": caller's bytes modified: " + ch
 		}
+		if frame != nil && !bytes.Equal(frame, frameSaved) {
+			for k := range frame {
+				if frame[k] != frameSaved[k] {
+					return when + fmt.Sprintf(": caller's frame buffer modified at offset %d: %#x -> %#x", k, frameSaved[k], frame[k])
+				}
+			}
+		}
 		if !reflect.DeepEqual(in, inCopy) {
 			return when + ": OCRA input (slice headers/contents) differs from the caller's copy"
 		}
@@ -314,6 +330,7 @@ func (e *c12Env) run(c c12Case) (obs, bad string) {
 			b[i] ^= 0x5A
 		}
 	}
+	frame = nil // (the framed fields are copies of the arena fields; they are not scribbled)
 	for i := range a.saved {
 		copy(a.saved[i], a.bufs[i])
 	}
@@ -357,7 +374,7 @@ func c12(r *ev.Run) {
 	base := [5]int{8, 16, 20, 5, 8}
 	for _, op := range ops {
 		if sliceOps[op] {
-			for shapeI := 0; shapeI < 3; shapeI++ {
+			for shapeI := 0; shapeI < 4; shapeI++ {
 				for f := 0; f < 5; f++ {
 					for _, ln := range c12Lens {
 						for sub := 0; sub < 4; sub++ {
